@@ -25,6 +25,16 @@ from renormalizer.mps.lib import compressed_sum
 from renormalizer.mps.mps import expand_bond_dimension_general
 from renormalizer.model import HolsteinModel, Mol, Phonon
 from renormalizer.utils import EvolveConfig, EvolveMethod, CompressConfig, CompressCriteria, Quantity
+def c13_reload(obj, cls, first):
+    """checkpoint / restart: dump to a temporary file and load again"""
+    import os, tempfile
+    d_ = tempfile.mkdtemp(prefix="c13_dump_")
+    f_ = os.path.join(d_, "x.npz")
+    obj.dump(f_)
+    new = cls.load(first, f_)
+    os.remove(f_)
+    os.rmdir(d_)
+    return new
 def chain_world(seed):
     np.random.seed(seed)
     ph = [Phonon.simple_phonon(Quantity(1.0), Quantity(0.7), 3)]
@@ -43,8 +53,9 @@ def chain_world(seed):
         s[s.qnidx] = s[s.qnidx].array * tnorm
         if cplx:
             s = s.to_complex()
-            for i in range(len(s)):
-                s[i] = s[i].array * np.exp(0.3j * (i + 1))
+            for i in range(len(s)):          # element-wise phases: genuinely complex amplitudes (zero pattern kept)
+                s[i] = s[i].array * np.exp(1j * np.random.rand(*s[i].shape))
+            s = s.canonicalise().canonicalise()
         s.coeff = coeff
         s.compress_config = CompressConfig(CompressCriteria.fixed, max_bonddim=3)
         s.evolve_config = EvolveConfig(EvolveMethod.tdvp_ps)
@@ -52,6 +63,11 @@ def chain_world(seed):
     ns["a"] = fresh_mps(4, 0.5, False, 3.0)
     ns["b"] = fresh_mps(3, -1.7, False, 0.6)
     ns["c"] = fresh_mps(4, 0.6 - 0.3j, True, 2.0)
+    # provenance dump -> load: attributes come back as arrays / other containers (qn as one ndarray, ...)
+    ns["al"] = c13_reload(fresh_mps(3, 0.9, False, 1.4), Mps, model)
+    ns["al"].compress_config = CompressConfig(CompressCriteria.fixed, max_bonddim=3)
+    ns["al"].evolve_config = EvolveConfig(EvolveMethod.tdvp_ps)
+    ns["o3"] = Mpo(model, Op(r"a^\dagger a", [0, 1]))          # non-Hermitian (one-way hopping): complex branches
     d = MpDm.max_entangled_ex(model)
     d[d.qnidx] = d[d.qnidx].array * 1.5
     d.coeff = 0.7
@@ -76,13 +92,22 @@ def tree_world(seed):
         s.root.tensor = s.root.tensor * tnorm
         if cplx:
             s = s.to_complex()
-            s.root.tensor = s.root.tensor * np.exp(0.4j)
+            for nd in s.node_list:           # element-wise phases: genuinely complex amplitudes (zero pattern kept)
+                nd.tensor = nd.tensor * np.exp(1j * np.random.rand(*nd.tensor.shape))
+            s.canonicalise()
         s.coeff = coeff
         s.compress_config = CompressConfig(CompressCriteria.fixed, max_bonddim=3)
         return s
     ns["a"] = fresh(4, 0.5, False, 3.0)
     ns["b"] = fresh(3, -1.7, False, 0.6)
     ns["c"] = fresh(4, 0.6 - 0.3j, True, 2.0)
+    # provenance dump -> load: the prefactor comes back as a 0-d ndarray that metacopy hands on to every derived state
+    ns["al"] = c13_reload(fresh(3, 2.5, False, 1.0), TTNS, tree)
+    ns["al"].compress_config = CompressConfig(CompressCriteria.fixed, max_bonddim=3)
+    ns["cl"] = c13_reload(fresh(3, 0.4 + 0.2j, True, 1.5), TTNS, tree)
+    ns["cl"].compress_config = CompressConfig(CompressCriteria.fixed, max_bonddim=3)
+    ns["o2"] = TTNO(tree, [Op(r"a^\dagger a", ["e0", "e1"], 0.7)])     # non-Hermitian: complex expectation values
+    ns["TTNS"] = TTNS
     return ns
 '''
 
@@ -149,6 +174,14 @@ def slots(o):
             out.append(("label", "qn%d" % i, nd.qn))
         if hasattr(o, "coeff"):
             out.append(("coeff", "coeff", o.coeff))
+        # topology: parent / children of every node (the root's parent must stay None)
+        idx = {id(nd): i for i, nd in enumerate(o.node_list)}
+        for i, nd in enumerate(o.node_list):
+            par = "None" if nd.parent is None else str(idx.get(id(nd.parent), "FOREIGN"))
+            out.append(("meta", "link%d" % i, par + "|" + ",".join(str(idx.get(id(c), "FOREIGN")) for c in nd.children)))
+    for a in ("model", "basis"):
+        if hasattr(o, a):
+            out.append(("meta", a + "_id", "id%d" % id(getattr(o, a))))
     return out
 
 
@@ -167,9 +200,24 @@ def snapshot(o):
     try:
         snap["dense"] = np.array(c13_dense(o), dtype=complex)
         snap["scale"] = c13_scale(o)
+        snap["usable"] = usable(o) is None
     except Exception as e:          # an object whose sites are not filled yet
         snap["dense_err"] = repr(e)[:100]
     return snap
+
+
+def usable(o):
+    """USABILITY probe: the library's own todense() of the object, and of a copy, must work (None) -- else the error"""
+    import warnings
+    try:
+        with warnings.catch_warnings():
+            warnings.simplefilter("ignore")
+            o.todense()
+            if hasattr(o, "copy") and not type(o).__name__.endswith("TTNO"):
+                o.copy().todense()
+        return None
+    except Exception as e:
+        return (type(e).__name__ + ": " + str(e))[:120]
 
 
 def same_value(x, y, scale=1.0):
@@ -282,6 +330,14 @@ def run_program(prog, seed):
                 val_changed.append({"name": k, "max_abs_diff": err})
             if fields:
                 (arg_rw if k in args else by_rw)[k] = {"rebound": rb, "modified": md}
+        # usability of every live object afterwards (todense of the object and of a copy), if it was usable before
+        unusable = []
+        for k, o in live.items():
+            if ns.get(k) is o and before[k].get("usable"):
+                err = usable(o)
+                if err is not None:
+                    unusable.append({"name": k, "error": err})
+        ob["unusable"] = unusable
         ob["value_changed"] = val_changed
         ob["arg_rewritten"] = arg_rw
         ob["bystander_rewritten"] = by_rw
